@@ -165,6 +165,20 @@ def _shortcut_by_scenario(prog, rep, sc, ds):
         return
     handled = sorted({k for a in ds.arms for k in a.kinds})
     aliases = prog.func_aliases(sc)
+    # the local that carries the source found so far: initialised to None before the loop and returned at the end
+    inits = set()
+    for st in sc.node.body:
+        if st is loop:
+            break
+        tg = st.targets[0] if isinstance(st, ast.Assign) and len(st.targets) == 1 else st.target if isinstance(st, ast.AnnAssign) else None
+        if isinstance(tg, ast.Name) and isinstance(getattr(st, "value", None), ast.Constant) and st.value.value is None:
+            inits.add(tg.id)
+    returned = {r.value.id for r in walk_local(sc.node) if isinstance(r, ast.Return) and isinstance(r.value, ast.Name)}
+    cands = sorted(inits & returned)
+    if len(cands) != 1:
+        rep.undecided(f"{sc.name}: the local that carries the source found so far (None before the loop, returned after it) is not unique ({cands}); shortcut scenarios not decided")
+        return
+    FS = cands[0]
 
     def run(kind, slot_kinds, same):
         """paths: list of dict(events..., terminal)"""
@@ -194,8 +208,8 @@ def _shortcut_by_scenario(prog, rep, sc, ds):
                         return same
                     if isinstance(op, (ast.IsNot, ast.NotEq)):
                         return not same
-                if "found_source" in (l, r):
-                    other = r if l == "found_source" else l
+                if FS in (l, r):
+                    other = r if l == FS else l
                     if other == "None":
                         state["consulted"] = True
                         v = state["fs_none"]
@@ -207,7 +221,7 @@ def _shortcut_by_scenario(prog, rep, sc, ds):
                         return d if isinstance(op, (ast.IsNot, ast.NotEq)) else (not d)
                 if isinstance(op, (ast.In, ast.NotIn)) and ("visited" in r or "seen" in r):
                     return isinstance(op, ast.NotIn)      # the node is met for the first time
-            if isinstance(t, ast.Name) and t.id == "found_source":
+            if isinstance(t, ast.Name) and t.id == FS:
                 state["consulted"] = True
                 return not state["fs_none"]
             return None
@@ -225,9 +239,9 @@ def _shortcut_by_scenario(prog, rep, sc, ds):
                     v = st.value
                     vs = src(v)
                     hit = [sl for sl in slot_kinds if vs == f"{subj}.{sl}"]
-                    if not hit and isinstance(v, ast.Name) and state["alias"].get(v.id) is not None and tg.id != "found_source":
+                    if not hit and isinstance(v, ast.Name) and state["alias"].get(v.id) is not None and tg.id != FS:
                         hit = [state["alias"][v.id]]        # alias of an alias
-                    if tg.id == "found_source":
+                    if tg.id == FS:
                         srcslot = hit[0] if hit else state["alias"].get(vs)
                         if srcslot is not None:
                             state["events"].append(("set", srcslot))
@@ -336,7 +350,7 @@ def _shortcut_by_scenario(prog, rep, sc, ds):
                     if not rec:
                         why = f"{desc}: the operand is not recorded as the source"
                     elif fs and ("set", rec[0]) not in ev and not any(e == "set" for e, _x in ev):
-                        why = f"{desc}: first source seen, but found_source is not set to it"
+                        why = f"{desc}: first source seen, but `{FS}` is not set to it"
                     elif not fs and not st_["compared"]:
                         why = f"{desc}: a source was already found, but the new candidate is not compared with it"
                     elif not fs and df and not gives_up(term):
@@ -345,7 +359,7 @@ def _shortcut_by_scenario(prog, rep, sc, ds):
                         why = f"{desc}: the candidate IS the source found earlier, yet the shortcut gives up"
                     elif any(op in ("Eq", "NotEq") for op in st_["cmp_ops"]):
                         why = "candidate sources are not compared by identity (`is not`): == on vectors builds a constraint object, which is truthy"
-                rep.ob("R16.3", construct, why is None, f"{desc}: recorded and merged into found_source by identity" if why is None else why, loc=loc, detail=det + ":" + desc[:40])
+                rep.ob("R16.3", construct, why is None, f"{desc}: recorded and merged into `{FS}` by identity" if why is None else why, loc=loc, detail=det + ":" + desc[:40])
     rep.saw("shortcut scenarios explored", n_sc)
 
 
@@ -559,6 +573,8 @@ def check(prog, rep):
     stores = [(fi, n) for fi, n in pm.assigned_outside.get("_variables", []) if isinstance(n, ast.Assign) and not isinstance(n.value, ast.Constant)]
     if not stores:
         raise AnalysisError("no store into Problem._variables found")
+    NONE_RETURNS: list = []
+
     def sorted_value(f, v, depth=0):
         """True / False / None(undecided): is the value a sorted(..., key=natural key) list on every path?"""
         if isinstance(v, ast.Call) and dotted(v.func) == "sorted":
@@ -579,6 +595,11 @@ def check(prog, rep):
                 tgt = prog.functions.get(f"{f.module.name}:{v.func.id}")
             if tgt is not None:
                 rets = [r for r in walk_local(tgt.node) if isinstance(r, ast.Return) and r.value is not None]
+                # `return None` = "no answer": the caller stores the result only when it is not None (checked at the store)
+                nones = [r for r in rets if isinstance(r.value, ast.Constant) and r.value.value is None]
+                if nones:
+                    NONE_RETURNS.append(src(v))
+                rets = [r for r in rets if r not in nones]
                 if not rets:
                     return None
                 rs = [sorted_value(tgt, r.value, depth + 1) for r in rets]
@@ -587,7 +608,14 @@ def check(prog, rep):
 
     for fi, n in stores:
         v = n.value
+        NONE_RETURNS.clear()
         ok = sorted_value(fi, v)
+        if NONE_RETURNS and ok is not None:
+            # the helper can answer None: the store must sit under `<value> is not None`
+            from ..astutil import dominating_guards as _dg2
+            guarded = any(pol_ and isinstance(t_, ast.Compare) and isinstance(t_.ops[0], ast.IsNot) and src(t_.left) == src(v) and isinstance(t_.comparators[0], ast.Constant) and t_.comparators[0].value is None for t_, pol_ in _dg2(n))
+            if not guarded:
+                ok = None
         if ok is None:
             rep.undecided(f"{fi.qual.split(':')[1]}: cannot tell whether `{src(v)[:50]}` stored into _variables is sorted by the natural key")
             continue
